@@ -136,7 +136,7 @@ def cli_case(case):
         files["untouched.py"] = b"x = 1\r\ny = 2"
         files["data.txt"] = b"\xff\xfe binary"
         if case["manifest"]:
-            mtxt = rng.choice(e2e.MANIFESTS[case["manifest"]]).encode()
+            mtxt = (case["manifest_text"] if case.get("manifest_text") is not None else rng.choice(e2e.MANIFESTS[case["manifest"]])).encode()
             if case.get("manifest_bom"):
                 mtxt = b"\xef\xbb\xbf" + mtxt
             if case.get("trigger_in_manifest"):
@@ -198,6 +198,9 @@ def search(ctx):
         cases.append({"layout": "plain", "n": 2, "codemods": ["pixee:python/use-defusedxml"], "manifest": m, "seed": rng.randint(0, 10**9)})
         cases.append({"layout": "plain", "n": 2, "codemods": ["pixee:python/use-defusedxml"], "manifest": m, "manifest_dir": "backend/", "seed": rng.randint(0, 10**9)})
     cases.append({"layout": "plain", "n": 2, "codemods": ["pixee:python/use-defusedxml"], "manifest": "requirements.txt", "manifest_bom": True, "seed": rng.randint(0, 10**9)})
+    # a last line with trailing blanks / a blank-only last line / no terminator: what the diff calls context must be what the file has
+    for text in ["requests==2.31.0\nflask>=2.0 \n", "requests\n   \n", "requests\nflask>=2\t"]:
+        cases.append({"layout": "plain", "n": 2, "codemods": ["pixee:python/use-defusedxml"], "manifest": "requirements.txt", "manifest_text": text, "seed": rng.randint(0, 10**9)})
     cases.append({"layout": "plain", "n": 1, "codemods": ["pixee:python/use-defusedxml"], "manifest": "setup.py", "trigger_in_manifest": True, "seed": rng.randint(0, 10**9)})
     cases.append({"layout": "plain", "n": 2, "codemods": ["pixee:python/use-defusedxml", "pixee:python/remove-unnecessary-f-str"], "manifest": "setup.py", "trigger_in_manifest": True, "seed": rng.randint(0, 10**9)})
     results = impl.pool_map(cli_case, cases)
